@@ -578,6 +578,18 @@ package generator
 //@   ensures [C10,C20,C11,C04] own-ref-map: fresh_map(result.schemaTypesByRef) && len(result.schemaTypesByRef) == 0
 //@   ensures [C10,C20] carries-arguments: result.Generator == g && result.schema == schema && result.schemaFileName == fileName && result.output == output
 
+// ---- the state that outlives one document ---------------------------------------
+// What a run accumulates across schema documents and DoFile calls: the outputs by
+// schema id and the definitions being followed (Generator), the declarations of an
+// output file by name and by schema node (output), the table of resolved
+// references of ONE document (schemaGenerator). Their keys and uses are what the
+// contracts of this file describe; these lists are the frame of that description.
+//@ func New@state
+//@   props C10 C20 C03 C12 C11
+//@   collections Generator: inScope outputs formatters
+//@   collections output: declsByName declsBySchema
+//@   collections schemaGenerator: schemaTypesByRef
+
 // The table is consulted and filled by resolveRef with the reference text as written;
 // it must be the generator's own field (wherever else it lived — the output, the
 // shared Generator, a package variable — documents that spell a reference alike
